@@ -202,7 +202,7 @@ func main() {
 	}
 	var b strings.Builder
 	b.WriteString("(* GENERATED by tools/gen/c10sites from internal/conf/conf.go and path.go: do not edit.\n")
-	b.WriteString("   Every error return site of (*Conf).Validate (fn 0) and (*Path).validate (fn 1), in source order:\n")
+	b.WriteString("   Every error return site of Conf.Validate (fn 0) and Path.validate (fn 1), in source order:\n")
 	b.WriteString("   (fn, kind, text); kind 0 = fmt.Errorf(text, ...), 1 = `return err` with err from callee text, 2 = other. *)\n")
 	b.WriteString("From Coq Require Import List ZArith.\nImport ListNotations.\nLocal Open Scope Z_scope.\n\n")
 	b.WriteString("Definition sites : list (Z * Z * list Z) := [\n")
@@ -211,7 +211,7 @@ func main() {
 		if i == len(all)-1 {
 			sep = ""
 		}
-		fmt.Fprintf(&b, "  (* %s: %s *)\n  (%d, %d, %s)%s\n", s.Func, strings.ReplaceAll(strings.ReplaceAll(s.Text, "(*", "( *"), "*)", "* )"),
+		fmt.Fprintf(&b, "  (* %s: %s *)\n  (%d, %d, %s)%s\n", s.Func, strings.ReplaceAll(strings.ReplaceAll(strings.ReplaceAll(s.Text, "(*", "( *"), "*)", "* )"), "\"", "'"),
 			s.Fn, s.Kind, coqBytes(s.Text), sep)
 	}
 	b.WriteString("].\n")
